@@ -1161,6 +1161,91 @@ pub fn random_game(rng: &mut Rng, pool: &[Pos], max_len: usize, shuffle_bias: bo
     CurPos { line, fen, moves }
 }
 
+fn material(p: &Pos, white: bool) -> i32 {
+    p.board
+        .iter()
+        .filter(|&&c| c != 0 && refchess::is_white(c) == white)
+        .map(|&c| match refchess::kind(c) {
+            b'q' => 9,
+            b'r' => 5,
+            b'b' | b'n' => 3,
+            b'p' => 1,
+            _ => 0,
+        })
+        .sum()
+}
+
+/// A game in which the side to move at the end is materially behind and has exactly one move that
+/// completes a threefold repetition: P0 a b a' b' a b a' with the weaker side to play b' again.
+pub fn repetition_game(rng: &mut Rng, imbalanced: &[Pos]) -> Option<CurPos> {
+    for _ in 0..40 {
+        let mut p0 = rng.pick(imbalanced).clone();
+        if p0.ep.is_some() {
+            continue;
+        }
+        p0.half = rng.below(20) as u32;
+        let mut pre: Vec<String> = Vec::new();
+        let stronger_white = material(&p0, true) > material(&p0, false);
+        let mut line = vec![p0.clone()];
+        if p0.white_to_move != stronger_white {
+            // let the weaker side make one move first so that the stronger side starts the shuffle
+            let legal = p0.legal_moves();
+            if legal.is_empty() {
+                continue;
+            }
+            let m = *rng.pick(&legal);
+            pre.push(m.uci());
+            let n = p0.apply(&m);
+            line.push(n);
+        }
+        let base = line.last().unwrap().clone();
+        let quiet = |p: &Pos| -> Vec<Mv> { p.legal_moves().into_iter().filter(|m| !p.is_capture(m) && refchess::kind(p.board[m.from as usize]) != b'p' && !(refchess::kind(p.board[m.from as usize]) == b'k' && (refchess::file_of(m.to) - refchess::file_of(m.from)).abs() == 2)).collect() };
+        let qa = quiet(&base);
+        if qa.is_empty() {
+            continue;
+        }
+        let a = *rng.pick(&qa);
+        let p1 = base.apply(&a);
+        let qb = quiet(&p1);
+        if qb.is_empty() {
+            continue;
+        }
+        let b = *rng.pick(&qb);
+        let inv = |m: &Mv| Mv { from: m.to, to: m.from, promo: None };
+        let seq = [a, b, inv(&a), inv(&b), a, b, inv(&a)];
+        let mut ok = true;
+        let mut moves = pre.clone();
+        for m in seq.iter() {
+            let cur = line.last().unwrap().clone();
+            if !cur.legal_moves().contains(m) || cur.is_capture(m) {
+                ok = false;
+                break;
+            }
+            moves.push(m.uci());
+            line.push(cur.apply(m));
+        }
+        if !ok {
+            continue;
+        }
+        let root = line.last().unwrap().clone();
+        // b' must be legal now and lead to the third occurrence of `base`
+        let back = inv(&b);
+        if !root.legal_moves().contains(&back) {
+            continue;
+        }
+        let mut probe = line.clone();
+        probe.push(root.apply(&back));
+        if refchess::occurrences(&probe, Pos::key) != 3 || refchess::occurrences(&line, Pos::key) >= 3 {
+            continue;
+        }
+        // castling rights lost by the shuffle would make the positions differ: occurrences() checked that
+        let start = line[0].clone();
+        let fen = if start == Pos::start() { None } else { Some(start.to_fen()) };
+        return Some(CurPos { line, fen, moves });
+    }
+    None
+}
+
 fn noise_line(rng: &mut Rng) -> String {
     match rng.below(8) {
         0 => "isready".into(),
@@ -1544,7 +1629,12 @@ pub fn gen_plan_draw(seed: u64, thorough: bool, imbalanced: &[Pos]) -> EnginePla
         }
         let one = [start];
         let max_len = *rng.pick(&[0usize, 4, 8, 12, 24]);
-        let game = random_game(&mut rng, &one, max_len, true);
+        let mut game = random_game(&mut rng, &one, max_len, true);
+        if rng.chance(1, 4) {
+            if let Some(g) = repetition_game(&mut rng, imbalanced) {
+                game = g;
+            }
+        }
         prev_game = Some(CurPos { line: game.line.clone(), fen: game.fen.clone(), moves: game.moves.clone() });
         let root = game.root().clone();
         let legal = root.legal_moves();
@@ -1560,7 +1650,7 @@ pub fn gen_plan_draw(seed: u64, thorough: bool, imbalanced: &[Pos]) -> EnginePla
 }
 
 /// C09: one plan = position + go; every poll of a dry run is an interruption point.
-pub fn gen_plan_interrupt(seed: u64, thorough: bool, pool: &[Pos]) -> EnginePlan {
+pub fn gen_plan_interrupt(seed: u64, thorough: bool, pool: &[Pos], imbalanced: &[Pos]) -> EnginePlan {
     let mut rng = Rng::new(seed);
     let knobs = Knobs { poll_interval: 512, tt_capacity: *rng.pick(&[0usize, 0, 64]) };
     let with_repetition = rng.chance(1, 3);
@@ -1576,6 +1666,12 @@ pub fn gen_plan_interrupt(seed: u64, thorough: bool, pool: &[Pos]) -> EnginePlan
     }
     if tries >= 60 {
         game = CurPos::startpos();
+    }
+    if with_repetition && rng.chance(2, 3) {
+        // the weaker side to move can force a draw by repetition with exactly one move
+        if let Some(g) = repetition_game(&mut rng, imbalanced) {
+            game = g;
+        }
     }
     let root = game.root().clone();
     let n = piece_count(&root);
